@@ -69,9 +69,67 @@ def r2(ctx):
                       [site_desc(fa, ix[0])], key="C03|C03.R2|byte_offset_in_changeset|roots provenance")
 
 
-RULES = [r1, r2]
+def r2b(ctx):
+    """placement of a received block: the short-cut 'the block goes at the current end of the data'
+    is taken exactly for the block whose index equals the current length"""
+    rule = "C03.R2"
+    fa = ctx.fn(MT_BYTE_OFFSET_CS)
+    if not need(ctx, P, rule, MT_BYTE_OFFSET_CS, fa):
+        return
+    early = [bb for bb, _, t in ok_returns(fa) if is_agg(agg_field(t, "0"), "Right") and path_of(strip(agg_field(agg_field(t, "0"), "0"))) == "self.byte_length"]
+    if need(ctx, P, rule, "byte_offset_in_changeset: return of self.byte_length", early):
+        ops = c09.cmp_facts(ctx, fa, early[0], lambda a: a == "self.length", lambda b: b == "hypercore_index")
+        ctx.check(P, rule, "a received block is placed at the end of the data only when its index is the current length", ops == ["Eq"], "self.length == hypercore_index => self.byte_length",
+                  "byte_offset_in_changeset returns the current byte length whenever self.length %s hypercore_index: a block beyond the current length is written at the wrong data offset (held, but unreadable or wrong bytes)" % ops,
+                  [loc(fa, early[0])], key="C03|C03.R2|byte_offset_in_changeset|append position short-cut")
+
+
+def r3(ctx):
+    """sibling agreement: upgrade_proof and additional_upgrade_proof walk the full roots with the
+    same skeleton; the only difference is the inclusion of the block / seek sub-proof"""
+    rule = "C03.R3"
+    from collections import Counter
+    fu, fa = ctx.fn(MT + "::upgrade_proof"), ctx.fn(MT + "::additional_upgrade_proof")
+    if not (need(ctx, P, rule, MT + "::upgrade_proof", fu) and need(ctx, P, rule, MT + "::additional_upgrade_proof", fa)):
+        return
+    def skeleton(f):
+        conds = set()
+        for b, o, tr, fl in bool_switches(f, lambda o: True):
+            s = term_sig(unwrap_ovf(o))
+            if s.startswith("join("):
+                continue
+            conds.add(s)
+        calls = Counter(callee_of(t).split("::")[-1] for _, t in f.calls() if "flat_tree::Iterator" in (t.get("callee") or ""))
+        req = Counter(1 for s in sites(f, MT_REQUIRED_NODE))
+        return conds, calls, len(sites(f, MT_REQUIRED_NODE))
+    cu, ku, ru = skeleton(fu)
+    ca, ka, ra = skeleton(fa)
+    extra = {c for c in cu - ca}
+    allowed_extra = all(("sub_tree" in c) or c.startswith("is_none(") for c in extra)
+    ctx.check(P, rule, "both proofs skip, connect and add roots under the same conditions", ca <= cu and allowed_extra, "conditions of additional_upgrade_proof are a subset; upgrade_proof only adds the sub-proof tests %s" % sorted(extra),
+              "branch conditions differ between the siblings: only in additional %s; only in upgrade %s" % (sorted(ca - cu), sorted(extra)), key="C03|C03.R3|upgrade proofs|conditions")
+    nav = ("new", "seek", "sibling", "parent", "factor")
+    diff = {k: (ku[k], ka[k]) for k in set(ku) | set(ka) if ku[k] != ka[k]}
+    ok = all(ku[k] == ka[k] for k in nav) and set(diff) <= {"contains", "index", "next_tree", "full_root"}
+    ctx.check(P, rule, "both proofs navigate the tree identically", ok, "same number of seek / sibling / parent / factor steps; differences only in the sub-proof inclusion: %s" % diff,
+              "flat-tree navigation differs between upgrade_proof and additional_upgrade_proof: %s" % diff, key="C03|C03.R3|upgrade proofs|navigation")
+    ctx.check(P, rule, "both proofs fetch a node at the same three places", ru == ra == 2 or (ru == ra), "required_node sites: %d / %d" % (ru, ra), "required_node sites differ: %d vs %d" % (ru, ra))
+    # verify_tree: the seek walk and the block walk are the same walk
+    fv = ctx.fn(VERIFY_TREE)
+    if need(ctx, P, rule, VERIFY_TREE, fv):
+        loops = fv.loops()
+        sk = []
+        for h, body, _ in loops:
+            cs = Counter(callee_of(fv.blocks[b].term).split("::")[-1] for b in body if fv.blocks[b].term["k"] == "call" and callee_of(fv.blocks[b].term).split("::")[-1] in ("shift", "sibling", "parent", "parent_node", "push"))
+            if cs.get("shift"):
+                sk.append(cs)
+        ctx.check(P, rule, "verify_tree climbs the seek path and the block path the same way", len(sk) == 2 and sk[0] == sk[1], "two loops with identical shift / sibling / parent / parent_node / push counts: %s" % (dict(sk[0]) if sk else None),
+                  "the two climbing loops of verify_tree differ: %s" % [dict(x) for x in sk], key="C03|C03.R3|verify_tree|loops")
+
+
+RULES = [r1, r2, r2b, r3]
 EXPLANATION = ("C03 (honest proofs accepted, replicas converge): acceptance and convergence depend on flat-tree arithmetic that no structural rule captures; decided narrowly: create_proof reads the value for "
                "the proof's own block index, returns Ok(None) without building a proof when that block is not held, and passes request and proof parts through unchanged (R1); byte_offset_in_changeset sums "
-               "root lengths over the same root list in which it searched the position, and its panic-capable constructs are discharged (R2).")
+               "root lengths over the same root list in which it searched the position, and its panic-capable constructs are discharged (R2); sibling agreement: upgrade_proof / additional_upgrade_proof share branch conditions and flat-tree navigation except for the sub-proof inclusion, and verify_tree's two climbing loops are the same walk (R3).")
 NOT_DECIDED = ("that any honest proof verifies; agreement of node counts with missing_nodes; partial upgrades; convergence of lengths and bytes; request orders; replica reopen — the bulk of the property is not decided statically.")
 ASSUMPTIONS = ["flat_tree index arithmetic is correct"]
